@@ -68,6 +68,7 @@ func (e *Engine) callFunction(st *State, fr *Frame, callee *ssa.Function, bindin
 		}
 	}
 	full := callee.String()
+	e.staticCallEvent(st, fr, callee, args, pos, ins)
 	if m, ok := libModels[full]; ok {
 		setRes(m(e, st, fr, args, resT, pos, ins))
 		return
@@ -628,4 +629,83 @@ func (e *Engine) havocLocation(st *State, env *Env, m string) {
 		return
 	}
 	env.errf("unsupported modifies item %q", m)
+}
+
+// capturedEnv exposes the current contents of the captured cells of a closure by the names of the captured variables.
+func (e *Engine) capturedEnv(st *State, fn *ssa.Function, bindings []Val, where string) *Env {
+	env := &Env{eng: e, st: st, pkg: e.pkgOf(fn), vars: map[string]Val{}, where: where}
+	for i, fv := range fn.FreeVars {
+		if i >= len(bindings) {
+			break
+		}
+		b := bindings[i]
+		var v Val
+		if b.A != nil {
+			v = st.load(b.A)
+		} else if _, isPtr := b.T.Underlying().(*types.Pointer); isPtr {
+			v = e.loadPtr(st, b)
+		} else {
+			v = b
+		}
+		v.T = deref(fv.Type())
+		env.vars[fv.Name()] = v
+	}
+	return env
+}
+
+// checkCaptured: "requires-captured" clauses of a closure's contract are proof obligations where the closure is created
+// (they may only mention captured variables, which the repository never reassigns after capture -- checked by
+// the closure unit itself having no stores to them is not needed: a reassignment in the parent would be a store to a
+// captured cell after this point and is reported by capturedStable).
+func (e *Engine) checkCaptured(st *State, fr *Frame, fn *ssa.Function, bindings []Val, x *ssa.MakeClosure) {
+	// "at makeclosure <name>:" clauses of the creating function (its locals are visible)
+	if pct := e.contractFor(fr.fn); pct != nil {
+		want := "makeclosure " + strings.TrimPrefix(funcDisplayName(fn), funcDisplayName(fr.fn))
+		want2 := "makeclosure " + funcDisplayName(fn)
+		for _, ev := range pct.Events {
+			if ev.Kind != "at" || (ev.Target != want && ev.Target != want2) {
+				continue
+			}
+			env := e.eventEnv(st, fr, ev, nil)
+			e.runEvent(st, fr, ev, env, ev.Target, x.Pos(), x)
+		}
+	}
+	ct := e.contractFor(fn)
+	if ct == nil || len(ct.Captured) == 0 {
+		return
+	}
+	env := e.capturedEnv(st, fn, bindings, "requires-captured of "+funcDisplayName(fn))
+	for i, c := range ct.Captured {
+		nm := c.Name
+		if nm == "" {
+			nm = fmt.Sprintf("%d", i)
+		}
+		name := fmt.Sprintf("%s#captured@%s[%s]", funcDisplayName(fr.fn), funcDisplayName(fn), nm)
+		if fr.fn != st.unit.Fn {
+			name = st.unit.Name + ">" + name
+		}
+		st.check("captured", name, env.evalBool(c.Expr), x.Pos())
+	}
+}
+
+// staticCallEvent: "on-call <name>(params)" clauses for statically resolved callees; <name> is the display name of the
+// callee without its package for repository functions ("(*membership).sessionNodesByPartyID"), or "pkg.Func" /
+// "(*T).Method" for library functions.
+func (e *Engine) staticCallEvent(st *State, fr *Frame, callee *ssa.Function, args []Val, pos token.Pos, ins ssa.Instruction) {
+	ct := e.contractFor(fr.fn)
+	if ct == nil || len(ct.Events) == 0 {
+		return
+	}
+	name := funcDisplayName(callee)
+	short := name
+	if callee.Pkg != nil {
+		short = strings.TrimPrefix(name, callee.Pkg.Pkg.Name()+".")
+	}
+	for _, ev := range ct.Events {
+		if ev.Kind != "on-call" || (ev.Target != name && ev.Target != short) {
+			continue
+		}
+		env := e.eventEnv(st, fr, ev, args)
+		e.runEvent(st, fr, ev, env, "call("+ev.Target+")", pos, ins)
+	}
 }
